@@ -463,17 +463,11 @@ static int run_sequence(Choice& c, Report& rep) {
           tail_snapshot.assign(buf.p + want, buf.p + S0);
         }
       }
-    } else if (op.kind == K_PATCH && !op.misuse && e.offs == 0 && e.rem < 0 && e.ext > 0 && rep.exclude("F08a") && rep.exclude("F08b")) {
-      // Known finding F08a/F08b: the stream so far starts with 0xFF byte(s) that are still buffered as a
-      // carry run (rem==-1, ext>0).  ec_enc_patch_initial_bits has no branch for that state: it either
-      // reports an error although the call is legal (F08a) or patches the wrong bits silently (F08b).
-      // The class is excluded by not issuing the patch.
-      skipped[i] = 1;
-      rep.label("excluded:patch-while-first-byte-0xff-pending");
     } else {
       apply_enc(&e, op, s.T);
       rep.count();
       if (op.kind == K_PATCH && !op.misuse) patched = true;
+      if (op.kind == K_PATCH && !op.misuse && e.offs == 0 && e.ext > 0) rep.label("patch-while-first-byte-0xff-pending");   // fixed finding F08 class
       if (op.kind == K_PATCH && op.misuse) {
         misuse_done = true;
         VP_REQUIRE(e.error != 0, "c08:patch-misuse-not-flagged", "patch_initial_bits(%u,%u) with fewer than %u range-coded bits did not set the error flag", op.a, op.bits, op.bits);
